@@ -1017,6 +1017,17 @@ def family_c04(tier, seed):
             (f"x:group-agg-before-win:{fname}", [From("t"), Select("a", "b", "c"), Group(["a"], Sort("c"), Derive(tot=s()), W())]),
             (f"x:win-agg-win:{fname}", [From("t"), Select("a", "b"), Sort("a"), Window(Derive(v=Fn("max", b)), rows=(0, 1)), Derive(tot=s()), W()]),
         ]
+    # an order-sensitive window function after a join / append that follows the sort (the left input keeps its order)
+    for jn, jt in (("inner", Join("u", "==a")), ("left", Join("u", "==a", side="left")), ("cond", Join("u", (C("this.a") == C("that.a")) & (C("this.b") >= C("that.b"))))):
+        extra += [
+            (f"x:sort-join-rownum:{jn}", [From("t"), Select("a", "b"), Sort("-b"), jt, Derive(r=Fn("row_number", C("this")))]),
+            (f"x:sort-join-lag:{jn}", [From("t"), Select("a", "b"), Sort("b"), jt, Derive(l=Fn("lag", 1, C("t.b")))]),
+            (f"x:sort-join-expanding:{jn}", [From("t"), Select("a", "b"), Sort("b"), jt, Window(Derive(cum=Fn("sum", C("t.b"))), expanding=True)]),
+            (f"x:sort-join-rolling-filter:{jn}", [From("t"), Select("a", "b"), Sort("-b"), jt, Window(Filter(Fn("sum", C("t.b")) > 0), rolling=1)]),
+        ]
+    extra += [
+        ("x:sort-append-rownum", [From("t"), Select("a", "b"), Sort("a", "b"), Append([From("u"), Select("a", "b")]), Sort("a", "b"), Derive(r=Fn("row_number", C("this")))]),
+    ]
     for tag, pipe in extra:
         prog = Prog(pipe)
         prog.features = {"extra"}
